@@ -62,6 +62,7 @@ class Sidecar:
         self.attr = {}     # item key -> text
         self.params = {}   # fn -> contract-side parameter names (positional binding to the real signature)
         self.woven = {}    # fn -> clause text as woven (after positional renaming)
+        self.skipped = []  # loop-relative hints whose loop no longer exists
         for path in paths:
             self._load(Path(path))
 
@@ -95,6 +96,9 @@ class Sidecar:
                     hdr = line[4:].split(None, 1)[1]
                     f, n = hdr.rsplit(None, 1)
                     cur = self.loop.setdefault((f.strip(), int(n)), [])
+                    # Loop invariants (and loop-relative proof blocks) are proof HINTS tied to the loop structure. If the
+                    # function no longer has that loop they are skipped and the contract is still checked against the
+                    # restructured body - it then fails or is proved on its own merits instead of "lost anchor".
                 elif kind == "proof":
                     hdr = line[4:].split(None, 1)[1]
                     m = re.match(r"(.*?)\s+(entry|end|before-loop|after-loop|loop-start|loop-end)(?:\s+(\d+))?$", hdr)
@@ -355,7 +359,8 @@ def weave_fn(src: Source, fn_item, key, side: Sidecar, used: set):
         if f != key: continue
         used.add(("loop", f, n))
         if n < 1 or n > len(loops):
-            raise Undecided(f"lost anchor: loop {n} of {key} (function has {len(loops)} loops)")
+            side.skipped.append(f"loop invariant {n} of {key} (function has {len(loops)} loops)")
+            continue
         ins.append((loops[n - 1][1], W("\n" + txt_of(lines) + "\n")))
     closures = None
     for (f, n), lines in side.closure.items():
@@ -386,7 +391,8 @@ def weave_fn(src: Source, fn_item, key, side: Sidecar, used: set):
             ins.append((body_close, txt))
         else:
             if n < 1 or n > len(loops):
-                raise Undecided(f"lost anchor: loop {n} of {key} (function has {len(loops)} loops)")
+                side.skipped.append(f"proof block {where} {n} of {key} (function has {len(loops)} loops)")
+                continue
             kw, lo, lc = loops[n - 1]
             pos = {"before-loop": kw, "after-loop": lc + 1, "loop-start": lo + 1, "loop-end": lc}[where]
             # `before-loop` must go before a possible label or `let x = loop`: keep it simple, statement loops only
@@ -890,6 +896,38 @@ def verus_replay(prop, r, unit):
     rec["replay_cmd"] = f"./vf replay {path}"
     path.write_text(json.dumps(rec, indent=1))
     return rec
+
+
+def bounded_standin(prop, unit, err):
+    """The verifier could not process the unit (unsupported construct, does not compile, lost loop anchor ...).
+    If the unit has a native search, run it as a BOUNDED STAND-IN on the real code: a failing operation sequence is a
+    violation (replayable); finding none leaves the unit undecided. Never counted as proved."""
+    srch = unit.get("search")
+    if not srch:
+        return None
+    import native_search
+    found = native_search.search(unit, srch, {"function": "(unit)"})
+    if not found.get("reproduced"):
+        return None
+    d = REPLAY / prop
+    d.mkdir(parents=True, exist_ok=True)
+    path = d / f"{unit['name']}__bounded_standin.json"
+    r = {"unit": unit["name"], "tool": "native-search", "backend": "cargo test (bounded enumeration on the real code)",
+         "harness": f"{unit['name']}:bounded-standin", "function": f"unit {unit['name']} (bounded stand-in)", "location": None,
+         "clause": "executable reference model written from the property, all operation sequences up to depth "
+                   f"{srch.get('depth', 5)}", "kind": "bounded", "bound": f"operation sequences up to depth {srch.get('depth', 5)}",
+         "status": "failed", "reason": "", "checks_total": 1, "checks_passed": 0,
+         "failed_checks": [{"description": f"{found.get('observed')} [ops {','.join(found['inputs']['ops'])}; "
+                                           f"{found['inputs']['policy']}] - the deductive verifier could not process this unit: {str(err)[:300]}",
+                            "category": "bounded-standin", "function": unit["name"], "location": srch["file"]}],
+         "time_s": 0, "solver_s": 0}
+    rec = {"property": prop, "obligation": r["harness"], "function": r["function"], "unit": unit["name"], "tool": "verus",
+           "clause": r["clause"], "failed_checks": r["failed_checks"], "path": str(path),
+           "verifier_output": f"UNDECIDED by Verus: {err}", "repo_head": git_head(REPO), "repo_dirty": git_dirty(REPO),
+           "replay_cmd": f"./vf replay {path}"}
+    rec.update(found)
+    path.write_text(json.dumps(rec, indent=1))
+    return r, rec
 
 
 def replay(rec, unit):
